@@ -182,6 +182,7 @@ class C14Spec(c01.C01Spec):
         s['w_start'] = rng.choice([0.05, 0.5])
         s['w_probe'] = rng.choice([0.1, 0.4])
         s['w_heal'] = 0.03
+        cfg['stale_replace_phase'] = True
         if cfg['n_voters'] >= 3 and rng.random() < 0.5:
             conf['dynamicMembershipChange'] = True
             cfg['removal_phase'] = rng.choice(['up', 'down', 'down_restart_others', 'down_restart_others'])
@@ -298,6 +299,47 @@ class C14Spec(c01.C01Spec):
                 if len(live) > 1:
                     orc.flag('duplicate_live_connection', 'hosts %d and %d hold %d live connections after the quiet period' % (a, b, len(live)))
                     return
+        # phase 2b: a stale connection is replaced by a new incoming one.  The connection of one pair goes silent for good
+        # (both directions held: a middlebox dropped its state), the dialling member is restarted - its FIN never arrives -
+        # and dials again: the accepting side still holds the dead connection as CONNECTED and has to put the new one in its
+        # place; within connectionRetryTime and a little the pair must exchange probes both ways
+        if n >= 2 and cfg.get('stale_replace_phase'):
+            a, b = 0, n - 1                     # the greater address dials
+            cids = [cid for cid, c in w.net.conns.items() if c.chost == b and c.shost == a]
+            if cids and w.hosts[a].node is not None and w.hosts[b].node is not None:
+                for cid in cids:
+                    for pid_ in (cid + '/0', cid + '/1'):
+                        if pid_ in w.net.pipes:
+                            apply([0.0, 'hold', pid_, 1])
+                apply([0.0, 'kill', b, 1])
+                apply([0.0, 'start', b])
+                w.probe('stale_connection_phase')
+                # probe as soon as the restarted dialler reports the connection (a connection on which one side has been
+                # silent for connectionTimeout is closed by the other side's next send - the library's read time-out -
+                # which is not what this phase is about)
+                t0 = w.T
+                lim = cfg['conf']['connectionRetryTime'] + 2 * cfg['conf']['raftMaxTimeout'] + 2.0
+                while w.T - t0 < lim:
+                    if not rounds(0.1):
+                        return
+                    if w.hosts[b].node is not None and conn_state(w, b, a)[0]:
+                        break
+                # the accepting side learns who dialled from the first message on the new connection
+                if not rounds(0.3):
+                    return
+                exp2 = []
+                for x, y in ((a, b), (b, a)):
+                    pid += 1
+                    apply([0.0, 'probe', x, y, pid])
+                    exp2.append((pid, x, y))
+                if not rounds(1.0):
+                    return
+                for p_, x, y in exp2:
+                    got = orc.probes_got.get(p_)
+                    if got != [y]:
+                        orc.flag('pair_not_reconnected', 'host %d was restarted while its connection to host %d had gone silent and dialled again: %.1f s later a probe from host %d to host %d was delivered to %r (the accepting side has to replace the stale connection by the new one)' % (
+                            b, a, cfg['conf']['connectionRetryTime'] + 2 * cfg['conf']['raftMaxTimeout'] + 3.0, x, y, got), dict(pair=[a, b]))
+                        return
         # phase 3: a member is removed (while up, while down, or while down and the others were restarted since it was last
         # seen) and then runs again with its old configuration: nothing of it may reach the remaining members
         mode = cfg.get('removal_phase')
